@@ -895,6 +895,7 @@ func report(c *h.Check, r caseResult) {
 }
 
 func run(c *h.Check) {
+	runRetries(c)
 	setup()
 	idx := 0
 	for _, hh := range tierHistories(c.Thorough()) {
@@ -966,6 +967,16 @@ func run(c *h.Check) {
 }
 
 func replay(c *h.Check, rf *h.ReplayFile) []vrt.Violation {
+	var probe struct {
+		Retry *retryCase `json:"retry"`
+	}
+	if json.Unmarshal(rf.Ops, &probe) == nil && probe.Retry != nil {
+		var vs []vrt.Violation
+		for _, m := range runRetryCase(*probe.Retry) {
+			vs = append(vs, vrt.Violation{Kind: "acked-lost-after-failed-call", Sig: rf.Sig, Detail: m})
+		}
+		return vs
+	}
 	setup()
 	var cc crashCase
 	if err := json.Unmarshal(rf.Ops, &cc); err != nil {
